@@ -191,3 +191,9 @@ Proof. reflexivity. Qed.
 Lemma api_mergeConfig_ok : api_mergeConfig =
   ["if err := json.Unmarshal(data, v); err != nil { return false, false, err }"].
 Proof. reflexivity. Qed.
+
+(* the etcd-backed kv.Base under Storage.SaveConfig (shared infrastructure): one put; its error - whatever etcd answers - is handed up, and an
+   unsuccessful transaction is an error too: the model's write is either applied or not, acknowledged or not, never "refused but reported fine" *)
+Lemma skel_etcdKVBase_Save_ok : skel_etcdKVBase_Save =
+  [Call "Commit"; IfE "err != nil" [Ret] []; IfE "!resp.Succeeded" [Ret] []; Ret].
+Proof. reflexivity. Qed.
